@@ -13,6 +13,9 @@ fn main() {
     let args = Args::parse();
     let scenario = args.pos.first().cloned().unwrap_or_default();
     let shard = Shard::from_args(args);
+    if !shard.out.is_empty() && shard.out != "-" && !shard.args.has("child") {
+        simnet::hang::install(&scenario.to_uppercase(), &shard.out);
+    }
     let rep = match scenario.as_str() {
         "c30" => c30::run(&shard),
         "c32" => c32::run(&shard),
